@@ -18,43 +18,58 @@ SMALL = [1, 7, 8, 9]
 KINDS = ["bs", "8", "16", "32", "64"]           # etl::bitset<N>, basic_bitset<N, uintK_t>
 WORD = {"bs": 64, "8": 8, "16": 16, "32": 32, "64": 64}
 
-RULE = ("histories over four live objects of one type; widths {1,7,8,9,31,32,33,63,64,65,127,128,129} x {etl::bitset, "
+RULE = ("histories over four live objects of one type; widths {1,7,8,9,31,32,33,63,64,65,127,128,129} (and 0) x {etl::bitset, "
         "basic_bitset with uint8/16/32/64 words}.  Exhaustive for N in {1,7,8,9}: every value (from unsigned long long) x "
         "every single operation with every position / bool / second operand from a pattern set "
-        "(set, reset, flip whole and single, proxy assign/flip/copy, &= |= ^= & | ^ ~, ==, to_ulong/to_ullong, to_string), and "
-        "every string over {zero,one} up to length 4 x every pos x every n (incl. npos) for the string constructors; "
+        "(set with and without the value argument, reset, flip whole and single, proxy assign/flip/copy, &= |= ^= & | ^ ~, ==, "
+        "to_ulong/to_ullong, to_string with 0, 1 and 2 arguments), and every string over {zero,one} up to length 4 x every pos x "
+        "every n (incl. npos) x every argument-list length (str | str,pos | str,pos,n | str,pos,n,zero | all five; cstr | cstr,n | "
+        "cstr,n,zero | all four) for the string constructors; strings longer than the bitset: every string of length N+1 at "
+        "N = 7 and 8 (pos 0..2, n in {N-1,N,N+1,npos}), 400 seeded strings of length N+1..N+3 at N = 9, random ones at every width; "
+        "character types wchar_t, char8_t, char16_t, char32_t (harness instantiations at N in {0,1,9,64,65,129}): every string up "
+        "to length 3 over four (zero,one) pairs per type, some differing only above the low byte / low 16 bits, then to_string "
+        "in the same type; bitset<0> / basic_bitset<0,W>: one scripted case per storage kind with every member that takes no "
+        "position; to_ulong/to_ullong at N in {65,127,128,129} with a bit set and cleared at 64, 65, N-2, N-1 (fits / overflow); "
         "beyond that seeded random histories up to length 60 mixing whole-set, single-bit, binary and constructor "
         "operations with positions biased to 0, N-1 and word boundaries +-1.  After EVERY mutating line the target's full "
-        "observable state (all bits through test/operator[] const, count, all, any, none) is compared.  A case is "
+        "observable state (all bits through test/operator[] const, count, all, any, none) is compared.  The harness is built with "
+        "TETL_ENABLE_CONTRACT_CHECKS: every TETL_PRECONDITION is live; a contract failure aborts the case except inside "
+        "to_ulong/to_ullong, where it is reported as `overflow`.  A case is "
         "non-trivial when its history reaches at least two different states one of which has both a set and a clear bit "
-        "(or N = 1); distinct = distinct case text.")
+        "(or N = 1; never for N = 0); distinct = distinct case text.")
 ASSUMPTIONS = ["std::bitset of libstdc++ 12 is the reference for spec validation (R2)",
                "preconditions excluded from generation: pos < size() for single-bit members; string constructors: pos <= size(), "
                "every used character is zero or one, no NUL inside a C string, n <= length or npos for the pointer overload "
-               "(std throws for the first two, the rest is UB in both)",
-               "popcount is a compiler builtin on the run-time path: modelled as the number of one bits (property C14 owns it)",
-               "unsigned long and unsigned long long are 64 bits (LP64)"]
+               "(std throws for the first two, the rest is UB in both).  NOT excluded: to_ulong/to_ullong on a value that does not "
+               "fit (std: overflow_error; tetl: failed contract, observed through the assert handler)",
+               "popcount on the run-time path is a compiler builtin, trusted to return the number of one bits; the portable "
+               "loop etl::detail::popcount_fallback (the constant-evaluated path) is proved to return that number "
+               "(C17.Props.popcount_code, through property C14's model of the loop)",
+               "unsigned long and unsigned long long are 64 bits (LP64)",
+               "a character is modelled by its code unit value (a natural number) and Traits::eq by equality: exact for "
+               "etl::char_traits<char|wchar_t|char8_t|char16_t|char32_t>; user-supplied traits are outside the model"]
 TRUSTED = ["hand model Tetl/C17/Model.lean tied to the source by the correspondence run (R1) on every run",
            "spec Tetl/C17/Spec.lean (bit positions -> Bool) validated against libstdc++ std::bitset (R2) on every run"]
 _P = "Tetl.C17.Props."
 _H = [_P + "step_rep", _P + "run_refines", _P + "padding_inv_history", _P + "run_observers"]
 THEOREMS = {
     "new": [_P + "init_rep"], "set_all": [_P + "setAll_rep"] + _H, "reset_all": [_P + "resetAll_rep"] + _H,
-    "flip_all": [_P + "flipAll_rep"] + _H, "set": [_P + "set_rep", _P + "uncheckedSet_rep"] + _H,
+    "flip_all": [_P + "flipAll_rep"] + _H, "set": [_P + "set_rep", _P + "uncheckedSet_rep", _P + "setD_rep"] + _H,
     "reset": [_P + "reset_rep", _P + "uncheckedReset_rep"] + _H, "flip": [_P + "flip_rep", _P + "uncheckedFlip_rep"] + _H,
     "ref_assign": [_P + "refAssign_rep"] + _H, "ref_flip": [_P + "refFlip_rep"] + _H,
     "ref_copy": [_P + "refGet_eq", _P + "refAssign_rep"] + _H,
     "and": [_P + "andAssign_rep"] + _H, "or": [_P + "orAssign_rep"] + _H, "xor": [_P + "xorAssign_rep"] + _H,
     "band": [_P + "andAssign_rep"] + _H, "bor": [_P + "orAssign_rep"] + _H, "bxor": [_P + "xorAssign_rep"] + _H,
     "assign": _H, "not": [_P + "not_rep"] + _H, "from_ull": [_P + "fromUll_rep"] + _H,
-    "from_str": [_P + "fromString_rep", _P + "fromCstr_rep"] + _H,
+    "from_str": [_P + "fromString_rep", _P + "fromCstr_rep", _P + "fromStringD_rep", _P + "fromCstrD_rep"] + _H,
     "probe": [_P + "test_eq", _P + "uncheckedTest_eq", _P + "getConst_eq", _P + "refGet_eq", _P + "refNot_eq"],
-    "eq": [_P + "eq_eq"], "to_ullong": [_P + "toUnsigned_partial", _P + "toUnsigned_counterexample"],
-    "to_ulong": [_P + "toUnsigned_partial", _P + "toUnsigned_counterexample"], "to_string": [_P + "toStr_eq"],
+    "eq": [_P + "eq_eq"], "to_ullong": [_P + "toUnsigned_eq", _P + "toUnsigned_overflow", _P + "toUnsigned_narrow"],
+    "to_ulong": [_P + "toUnsigned_eq", _P + "toUnsigned_overflow", _P + "toUnsigned_narrow"],
+    "to_string": [_P + "toStr_eq", _P + "toStrD_eq"],
 }
 SEARCH_CAP = 20000
 
-F_WIDE = "F-C17-to-ullong-wide-absent"
+F_WIDE = "F-C17-to-ullong-wide-absent"      # fixed (to_ulong/to_ullong exist for every width): no class is excluded any more
 
 
 def hl(v):
@@ -452,11 +467,7 @@ def nontrivial(case, rows):
 
 
 def classify(case, k, row):
-    """known finding F_WIDE: the member does not exist for Bits > 64 (requires-clause); same predicate as the
-    hypothesis `N <= 64` of C17.Props.toUnsigned_partial."""
-    op = case.lines[k].split(" ", 1)[0]
-    if op in ("to_ullong", "to_ulong") and width_of(case) > 64:
-        return F_WIDE
+    """no known (unrepaired) finding is left for C17: every impl != spec is a violation"""
     return None
 
 
@@ -470,20 +481,28 @@ TECHNIQUE = ("Lean 4 proof: padding invariant + refinement of the word-array mod
              "correspondence run")
 LEVEL_TEXT = ("A word-array model of basic_bitset/bitset (BitVec words, checked reads/writes, the source's masks, loops and "
               "preconditions; width N and word size 2^k are parameters) is proved in Lean 4 to refine the bit-position "
-              "specification of std::bitset for EVERY N >= 1, every word size and every valid history of unbounded length: no "
-              "operation ever returns an error (no out-of-range word access, no over-wide shift), the padding bits of the last "
-              "word stay zero, and the observers return the specified values.  The model is tied to the current source on every "
-              "run by executing model and implementation (ASan/UBSan) on the same histories: exhaustive for N in {1,7,8,9} x 5 "
-              "storage kinds (every value x every single operation), random histories to length 60 at the 13 widths around the "
-              "word boundaries; the spec is validated against libstdc++ std::bitset on the same lines.")
+              "specification of std::bitset for EVERY N >= 0 (bitset<0> included), every word size and every valid history of "
+              "unbounded length: no operation ever returns an error (no out-of-range word access, no over-wide shift, no failed "
+              "contract), the padding bits of the last word stay zero, and the observers return the specified values; "
+              "to_ulong/to_ullong are proved for every width in both directions (value returned when it fits in 64 bits, contract "
+              "failure exactly when std::bitset throws overflow_error); calls that leave trailing arguments to their defaults "
+              "(set(pos), to_string(), to_string(zero), the shorter argument lists of both string constructors) are separate "
+              "model operations with their own theorems; characters are code unit values, so the string members are proved for "
+              "every character type.  The model is tied to the current source on every "
+              "run by executing model and implementation (ASan/UBSan, contract checks on) on the same histories: exhaustive for N in "
+              "{1,7,8,9} x 5 storage kinds (every value x every single operation), random histories to length 60 at the 13 widths "
+              "around the word boundaries, N = 0, and wchar_t/char8_t/char16_t/char32_t instantiations at six widths; the spec is "
+              "validated against libstdc++ std::bitset on the same lines.")
 LEVEL_NOTE = ("Trusted: Lean kernel + propext/Classical.choice/Quot.sound; the hand model's fidelity outside the explored "
-              "histories; popcount builtin = number of one bits; g++-12/ASan; libstdc++ as oracle for spec validation. Members "
-              "listed in coverage.correspondence_only have no theorem yet and are covered by the differential run only.")
+              "histories; the popcount builtin returns the number of one bits (the portable loop is proved); g++-12/ASan; "
+              "libstdc++ as oracle for spec validation. Items listed in coverage.correspondence_only have no theorem and are "
+              "covered by the differential run only.")
 # covered by the differential run only (no Lean theorem)
 CORRESPONDENCE_ONLY = [
-    "to_ulong/to_ullong for Bits > 64: the member does not exist (known finding F-C17-to-ullong-wide-absent)",
-    "defaulted arguments (set(pos) with value defaulted, to_string() with default characters, string constructors with pos/n/zero/one "
-    "defaulted): same bodies as the proved members, the defaults themselves are exercised by the harness only",
-    "popcount builtin (modelled as the number of one bits; the loop fallback belongs to C14)",
-    "character types other than char for the string constructors / to_string (not instantiated)",
+    "popcount on the run-time path: __builtin_popcount{,l,ll} (trusted to return the number of one bits; the portable loop of the "
+    "constant-evaluated path is proved: C17.Props.popcount_code)",
+    "that the default arguments written in bitset.hpp are 0 / npos / CharT('0') / CharT('1') / true (the values the model "
+    "operations setD, fromStringD, fromCstrD, toStrD carry and the theorems use): read off the source, exercised by the harness "
+    "calling every shorter argument list",
+    "user-supplied Traits (Traits::eq other than ==) and character types other than char, wchar_t, char8_t, char16_t, char32_t",
 ]
